@@ -365,6 +365,9 @@ pub struct ChanWorld {
     polls: u64,
 }
 
+/// No script needs more than ~60 task polls; beyond this the run is a livelock.
+pub const POLL_LIMIT: u64 = 500;
+
 pub const POLL_W: u32 = 0;
 pub const POLL_R: u32 = 1;
 pub const SPUR_W: u32 = 2;
@@ -375,9 +378,18 @@ pub const DROP_R: u32 = 5;
 impl ChanWorld {
     fn poll_side(&mut self, writer: bool) {
         self.polls += 1;
-        if self.polls > 2000 {
+        if self.polls > POLL_LIMIT {
             let mut l = self.log.borrow_mut();
-            l.v("law=terminates cond=livelock", "more than 2000 task polls without both tasks finishing".into());
+            let b = self.cfg.budget;
+            let (a, r) = (l.accepted.len(), l.received.len());
+            l.v(
+                &format!("law=terminates cond=livelock budget={}", b),
+                format!(
+                    "{} task polls without both tasks finishing (RunWithBudget budget {}): accepted={} received={}{}",
+                    POLL_LIMIT, b, a, r,
+                    if b == 1 { "; with budget 1 consume_budget turns the first channel operation of every poll into a self-woken Pending, so no channel operation ever runs: the task spins for ever" } else { "" }
+                ),
+            );
             drop(l);
             self.w.kill();
             self.r.kill();
@@ -529,8 +541,16 @@ impl World for ChanWorld {
             };
             let (a, r, wc, rg) = (l.accepted.len(), l.received.len(), l.writer_closed, l.reader_gone);
             let (we, re) = (l.w_events.last().cloned(), l.r_events.last().cloned());
+            // which wait condition of a blocked task is already satisfiable
+            let mut conds = vec![];
+            if rb {
+                conds.push(if a > r { "reader:data_available" } else if wc { "reader:writer_closed" } else { "reader:nothing_to_read" });
+            }
+            if wb {
+                conds.push(if rg { "writer:reader_closed" } else if a - r < self.cfg.cap { "writer:space_available" } else { "writer:channel_full" });
+            }
             l.v(
-                &format!("law=terminates blocked={}", who),
+                &format!("law=terminates blocked={} while={}", who, conds.join("+")),
                 format!(
                     "no task is runnable but {} is still waiting: accepted={} received={} capacity={} writer_closed={} reader_gone={} last writer op={:?} last reader op={:?}",
                     who, a, r, self.cfg.cap, wc, rg, we, re
